@@ -24,7 +24,7 @@ WRAPFLAGS_VFS := $(foreach s,$(WRAP_VFS),-Wl,--wrap=$(s))
 .PHONY: setup clean engine
 .SECONDARY:
 
-setup: $(BUILD)/fw/vsim.o $(BUILD)/fw/vsim-child
+setup: $(BUILD)/fw/vsim.o $(BUILD)/fw/vpar.o $(BUILD)/fw/vsim-child
 
 $(BUILD)/fw/vsim.o: $(ROOT)vsim/vsim.cc $(ROOT)vsim/vsim.hh $(ROOT)vsim/json_min.hh
 	@mkdir -p $(dir $@)
@@ -60,6 +60,31 @@ $(B)/sim_rand: $(B)/asan/sim_rand.o $(B)/asan/vfs.o $(B)/asan/librepo.a $(BUILD)
 
 $(B)/sim_image: $(B)/asan/sim_image.o $(B)/asan/vfs.o $(B)/asan/librepo.a $(BUILD)/fw/vsim.o
 	$(CXX) $(ASAN) $(WRAPFLAGS_VFS) $^ -lz -lpthread -o $@
+
+# ---- sim-par: uninstrumented scheduler, ASan and TSan builds of the same harness
+LIBOBJS_TSAN := $(patsubst src/%.cc,$(B)/tsan/lib/%.o,$(LIBSRCS))
+
+$(BUILD)/fw/vpar.o: $(ROOT)vsim/vpar.cc $(ROOT)vsim/vpar.hh $(ROOT)vsim/vsim.hh
+	@mkdir -p $(dir $@)
+	$(CXX) $(STD) -O2 -g $(WARN) -I$(ROOT)vsim -c $< -o $@
+
+$(B)/tsan/lib/%.o: $(REPO)/src/%.cc
+	@mkdir -p $(dir $@)
+	$(CXX) $(STD) $(OPT) $(TSAN) -w -I$(REPO)/src -c $< -o $@
+
+$(B)/tsan/librepo.a: $(LIBOBJS_TSAN)
+	@rm -f $@
+	ar rcs $@ $^
+
+$(B)/tsan/sim_par.o: $(ROOT)engines/sim_par.cc $(wildcard $(ROOT)vsim/*.hh) $(wildcard $(REPO)/src/*.hh)
+	@mkdir -p $(dir $@)
+	$(CXX) $(STD) $(OPT) $(TSAN) -DVSIM_TSAN_BUILD $(WARN) -I$(ROOT)vsim -I$(REPO)/src -c $< -o $@
+
+$(B)/sim_par: $(B)/asan/sim_par.o $(B)/asan/librepo.a $(BUILD)/fw/vpar.o $(BUILD)/fw/vsim.o
+	$(CXX) $(ASAN) $^ -lz -lpthread -o $@
+
+$(B)/sim_par_tsan: $(B)/tsan/sim_par.o $(B)/tsan/librepo.a $(BUILD)/fw/vpar.o $(BUILD)/fw/vsim.o
+	$(CXX) $(TSAN) $^ -lz -lpthread -o $@
 
 engine: $(B)/$(E)
 
